@@ -83,9 +83,9 @@ func vhKeyUsage() {
 		}
 	}
 	if len(list) == 0 {
-		return // an empty content list means "no content" (profile placeholder), not an empty bit string
-	}
-	if vChoose("dup", 2) == 1 {
+		// `content: []` reaches the builder as an empty, non-nil list: the empty named bit list
+		list = []string{}
+	} else if vChoose("dup", 2) == 1 {
 		list = append(list, list[0])
 	}
 	ext, err := vCompile(KeyUsage{Content: list, Critical: true}.Builder())
